@@ -356,6 +356,8 @@ type Store struct {
 	wrapSeq  int
 	// Unpublished: the published key set is empty (every key withdrawn) although a signing key still exists
 	Unpublished bool
+	// counters of the rarely used capabilities
+	EndFromRequestCalls, ThirdPartyAccepted int
 }
 
 func NewStore() *Store {
@@ -724,6 +726,11 @@ func (s *Store) TerminateSession(ctx context.Context, userID, clientID string) e
 	}
 	s.mu.Lock()
 	defer s.mu.Unlock()
+	s.terminateLocked(userID, clientID)
+	return nil
+}
+
+func (s *Store) terminateLocked(userID, clientID string) {
 	s.Terminated = append(s.Terminated, userID+"|"+clientID)
 	for _, t := range s.Tokens {
 		if t.Client == clientID && t.Subject == userID {
@@ -735,7 +742,6 @@ func (s *Store) TerminateSession(ctx context.Context, userID, clientID string) e
 			r.Dead = true
 		}
 	}
-	return nil
 }
 
 func (s *Store) RevokeToken(ctx context.Context, tokenOrID, userID, clientID string) *oidc.Error {
